@@ -73,6 +73,15 @@ class C12(PropBase):
                     probes.add('/'.join(parts[:i]))
                 probes.add('/'.join(parts[:-1] + ['nope']))
             probes = sorted(probes)
+            # concrete-looking Sids that are searches: an extension alias as last value; an un-applied query
+            self_alias = []
+            for e in ents:
+                last = e.split('/')[-1]
+                for al, members in v.alias.items():
+                    if last in members:
+                        self_alias.append(('/'.join(e.split('/')[:-1] + [al]), e))
+            self_alias = self_alias[:4]
+            unapplied = [e + '?foo=bar' for e in ents[:2]]
             out.append(Case('fs_reset', [], 'setup', {'h': h}))
             created = []
             for si in range(3):
@@ -85,6 +94,12 @@ class C12(PropBase):
                     out.append(Case('sid_exists', [['s', x]], 'probe', m))
                     out.append(Case('children', [['s', x]], 'probe', m))
                     out.append(Case('siblings', [['s', x]], 'probe', m))
+                for (qa, e) in self_alias:
+                    out.append(Case('sid_exists', [['s', qa]], 'probe-alias', {'h': h, 'stage': si, 'sid': qa, 'member': e}))
+                    out.append(Case('find_all', [qa], 'probe-alias', {'h': h, 'stage': si, 'sid': qa, 'member': e}))
+                for qa in unapplied:
+                    out.append(Case('sid_exists', [['s', qa]], 'probe-query', {'h': h, 'stage': si, 'sid': qa}))
+                    out.append(Case('find_all', [qa], 'probe-query', {'h': h, 'stage': si, 'sid': qa}))
                 self.fs_created[(h, si)] = list(created)
         out.append(Case('fs_reset', [], 'setup', {'h': 0}))
         return out
@@ -99,8 +114,20 @@ class C12(PropBase):
         def parent(s_):
             return '/'.join(s_.split('/')[:-1])
         fails = []
+        fails_pre = fails
         closures = {}
         answers = {}
+        # exists(s) is True exactly when find(s) yields something, also for concrete-looking searches
+        pend = {}
+        for c, o in zip(cases, impl_out):
+            if c.stream in ('probe-alias', 'probe-query'):
+                key = (c.meta['h'], c.meta['stage'], c.meta['sid'])
+                pend.setdefault(key, {})[c.op] = (c, o)
+        for key, d in pend.items():
+            if 'sid_exists' in d and 'find_all' in d:
+                (ce, oe), (cf, of) = d['sid_exists'], d['find_all']
+                if oe[0] == 'ok' and of[0] == 'ok' and (oe[1] == '1') != bool(of[1]):
+                    fails_pre.append((ce, oe, 'Sid(%r).exists() is %s but FindInAll.find gives %r (after creating %r)' % (key[2], oe[1], of[1], self.fs_created[(key[0], key[1])])))
         for c, o in zip(cases, impl_out):
             if c.stream == 'create' and o[0] != 'ok' and o[1] != 'SpilException':      # SpilException: it exists already (as an ancestor of an earlier creation)
                 fails.append((c, o, 'create of %r raised %r' % (c.args[1], o)))
@@ -199,7 +226,7 @@ class C12(PropBase):
             return [case.meta['h'], case.meta['stage'], case.op, case.args] if impl[0] == 'ok' and impl[1] not in ('0', []) else None
         return case.args if case.op == 'find_list' and impl[0] == 'ok' and impl[1] else None
     def histogram_key(self, case, impl):
-        if case.stream in ('probe', 'create', 'setup'):
+        if case.stream in ('probe', 'create', 'setup', 'probe-alias', 'probe-query'):
             return '%s:%s:stage%s:%s' % (case.stream, case.op, case.meta.get('stage'), 'raise' if impl[0] != 'ok' else ('some' if impl[1] not in ('0', []) else 'none'))
         return '%s:%s' % (case.op, 'raise' if impl[0] != 'ok' else (min(len(impl[1]), 3) if isinstance(impl[1], list) else impl[1]))
 
